@@ -84,7 +84,7 @@ def reach (s : Schema) (X : List Name) : Nat → List Name → List Name
 def connected (s : Schema) (X : List Name) : Bool :=
   match X with
   | [] => false
-  | x :: _ => subset X (reach s X X.length [x])
+  | x :: _ => subset X (reach s X (2 * X.length) [x])
 
 def Legal (s : Schema) (X : List Name) : Bool :=
   !X.isEmpty &&
